@@ -466,31 +466,39 @@ func (f *file) ReadDir(n int) ([]hackpadfs.DirEntry, error) {
 	if err != nil {
 		return nil, &hackpadfs.PathError{Op: "readdir", Path: f.path, Err: err}
 	}
-	start := f.offset
-	if start > int64(len(dirNames)) {
-		start = int64(len(dirNames))
-	}
-	end := int64(len(dirNames))
-	if n > 0 && int64(n) < end-start {
-		// a non-positive count, or one larger than what is left, returns all remaining entries
-		end = start + int64(n)
-	}
-	if n > 0 && start == end {
-		// like os.File, the end of the directory is reported as io.EOF
-		return nil, io.EOF
-	}
-	offsetAdd := end - start
-
-	var entries []hackpadfs.DirEntry
-	for _, name := range dirNames[start:end] {
-		entry, err := newDirEntry(f.fs, f.path, name)
-		if err != nil {
-			return nil, err
+	for {
+		start := f.offset
+		if start > int64(len(dirNames)) {
+			start = int64(len(dirNames))
 		}
-		entries = append(entries, entry)
+		end := int64(len(dirNames))
+		if n > 0 && int64(n) < end-start {
+			// a non-positive count, or one larger than what is left, returns all remaining entries
+			end = start + int64(n)
+		}
+		if n > 0 && start == end {
+			// like os.File, the end of the directory is reported as io.EOF
+			return nil, io.EOF
+		}
+
+		var entries []hackpadfs.DirEntry
+		for _, name := range dirNames[start:end] {
+			entry, err := newDirEntry(f.fs, f.path, name)
+			if errors.Is(err, hackpadfs.ErrNotExist) {
+				// removed since the names were read: like os.File.ReadDir, treat it as if it had not been there
+				continue
+			}
+			if err != nil {
+				return nil, err
+			}
+			entries = append(entries, entry)
+		}
+		f.offset += end - start
+		if len(entries) > 0 || n <= 0 {
+			return entries, nil
+		}
+		// every entry of this page has vanished: go on with the next one (an empty page must come with an error)
 	}
-	f.offset += offsetAdd
-	return entries, nil
 }
 
 type dirEntry struct {
